@@ -13,7 +13,7 @@
    exact_errors = false agrees with the reference semantics up to merging of adjacent character tokens;
    (b) the Rust tokenizer agrees with the chunked-queue interpreter; (c) the tree-builder half. *)
 From Coq Require Import List NArith Bool.
-From HV Require Import TokIR.IR TokIR.Interp TokIR.Checks TokIR.Chunk Gen.GenHtmlTok Inst.InstHtmlTok Inst.InstChunk.
+From HV Require Import TokIR.IR TokIR.Interp TokIR.Checks TokIR.Chunk TokIR.QueueSim Gen.GenHtmlTok Inst.InstHtmlTok Inst.InstChunk.
 Import ListNotations.
 
 Theorem C03_reference_semantics_chunk_independent_partial :
@@ -55,3 +55,20 @@ Proof.
   destruct (html_run_is_relation _ _ _ _ _ _ _ _ E) as [H|H]; [|rewrite Er in H; discriminate].
   rewrite Er in H. eexists. exact H.
 Qed.
+
+(* T2 for exact_errors = true (TokIR/QueueSim.v, generic in the table): the interpreter over the CHUNKED queue - the one the
+   correspondence check runs against the Rust tokenizer - and the reference interpreter over the flat queue deliver the
+   same tokens with parse errors and line numbers, the same configuration, unread input and results, for every list of
+   chunks, sink script, injected text and fuel: with exact_errors the interpreter never takes a bulk read, and every
+   queue operation is adequate for its flat reading.  (For exact_errors = false the two differ by the merging of
+   adjacent character tokens and by the fast path's missing per-character errors: that leg stays differential.) *)
+Theorem C03_chunked_interpreter_is_reference_exact :
+  forall simd ent c1 sk fuel inject chunks (m : mach _ queue) log,
+  wfq (mq m) ->
+  let r := drive_chunked html_flavour true html_table simd ent c1 sk fuel inject chunks m log in
+  let r' := drive_flat html_flavour true html_table simd ent c1 sk fuel inject chunks (mkmach (mc m) (qflat (mq m)) (mout m) (mcons m)) log in
+  wfq (mq (fst r)) /\
+  mc (fst r) = mc (fst r') /\ qflat (mq (fst r)) = mq (fst r') /\ mout (fst r) = mout (fst r') /\ mcons (fst r) = mcons (fst r') /\
+  snd r = snd r'.
+Proof. exact (chunked_is_reference_exact html_flavour html_table). Qed.
+Print Assumptions C03_chunked_interpreter_is_reference_exact.
